@@ -665,11 +665,11 @@ class BluePrint:
         if pos < -1:
             raise ValueError("Position must be strictly larger than -1")
 
-        if name is None or name == "":
-            if func == "waituntil":
-                name = "waituntil"
-            else:
-                name = func.__name__
+        if isinstance(func, str):
+            # special segments have protected names (cf. __init__)
+            name = func
+        elif name is None or name == "":
+            name = func.__name__
         elif isinstance(name, str):
             if len(name) > 0:
                 if name[-1].isdigit():
